@@ -289,7 +289,7 @@ int main(int argc, char** argv)
   spec.rule = "case = (mesh file, desired-level string incl. multi-layered hierarchies, ranks P, allowed partitioner types / extern partition names / elements per rank, "
     "configuration route parse_args / parse_property_map / defaults, adapt mode); PartiDomainControl::create runs on P rank threads over the MPI model (default schedule); "
     "every level on which all P ranks own a patch is checked geometrically against the one-process refinement of the file. Non-trivial = P >= 2; hash = configuration string";
-  spec.bounds_quick = "unit-square-quad, unit_circle_quad_5 (chart adaption), flowbench_c2d_01_quad_32 (extern partitions 'auto'/'other'); P in {1,2,3,4,5,6,8}; levels '2 0', '3 1', '3 1:1 0', '3 2:2 0', '4 3:4 2:2 0'; "
+  spec.bounds_quick = "unit-square-quad, unit_circle_quad_5 (chart adaption), l-shape-quad (re-entrant corner), flowbench_c2d_01_quad_32 (extern partitions 'auto'/'other'); P in {1,2,3,4,5,6,8}; levels '2 0', '3 1', '3 1:1 0', '3 2:2 0', '4 3:4 2:2 0'; "
     "partitioner types default / 2level / naive / genetic(time 0, fixed seed) / extern+names; rank-elems 1,4";
   spec.bounds_thorough = "as quick plus P in {12,16}";
   spec.assumptions = {"MPI behaves as modelled by engine/minimpi; default schedule only (schedule exploration of the control layer belongs to C13)",
@@ -312,6 +312,7 @@ int main(int argc, char** argv)
     const std::vector<MeshCfg> meshes = {
       {"unit-square-quad.xml", {{"", ""}, {"2level", ""}, {"naive", ""}, {"genetic", ""}, {"genetic naive", ""}}},
       {"unit_circle_quad_5.xml", {{"", ""}, {"naive", ""}, {"genetic", ""}}},
+      {"l-shape-quad.xml", {{"", ""}, {"naive", ""}, {"genetic", ""}}}, // re-entrant corner: boundary vertices known only through neighbours
       {"flowbench_c2d_01_quad_32.xml", {{"", ""}, {"extern", "auto"}, {"extern", "other"}, {"extern naive", "nonexistent"}, {"naive", ""}}}};
     const std::vector<std::string> levels = {"2 0", "3 1", "3 1:1 0", "3 2:2 0", "4 3:4 2:2 0"};
     std::vector<int> Ps = {1, 2, 3, 4, 5, 6, 8};
@@ -354,6 +355,13 @@ int main(int argc, char** argv)
       c.check(left.empty(), "control.mpi-leftovers", [&]{ return "MPI objects left behind: " + left; });
       for(int r = 1; r < P; ++r) c.check(outs[size_t(r)].levels == outs[0].levels && (lv.find(':') != lv.npos || outs[size_t(r)].parti == outs[0].parti), "control.ranks-disagree", [&]{ return "ranks 0 and " + std::to_string(r) + " report different chosen levels / partitioner info: '" + outs[0].levels + "' / '" + outs[size_t(r)].levels + "'"; });
       c.outcome(std::string(outs[0].parti.c_str()).substr(0, 40));
+      // the partition that was asked for by name is the one that is used
+      if(P > 1 && lv.find(':') == lv.npos && ty.first.compare(0, 6, "extern") == 0)
+      {
+        const std::string info(outs[0].parti.c_str());
+        if(ty.second == "nonexistent") c.check(info.find("extern") == std::string::npos, "control.extern-name", [&]{ return "no partition is called 'nonexistent' but the control layer reports: " + info; });
+        else c.check(info.find("extern partition '" + ty.second + "'") != std::string::npos, "control.extern-name", [&]{ return "extern partition '" + ty.second + "' was requested for " + std::to_string(P) + " ranks but the control layer reports: " + info; });
+      }
       // every physical level of rank 0 whose layer spans all ranks
       for(size_t i = 0; i < outs[0].lv.size(); ++i)
       {
